@@ -90,7 +90,7 @@ TrSeedFromU64 ==
 (* byte sources and from_rng / try_from_rng *)
 TrSrc ==
   /\ IsEvent("src")
-  /\ srcs' = (Ev.s :> [bytes |-> Ev.bytes, pos |-> 0, calls |-> 0,
+  /\ srcs' = (Ev.s :> [bytes |-> Ev.bytes, lead |-> IF Has(Ev, "lead") THEN Ev.lead ELSE 0, pos |-> 0, calls |-> 0,
                        fallible |-> (Has(Ev, "fallible") /\ Ev.fallible),
                        failAt |-> IF Has(Ev, "fail_at") THEN Ev.fail_at ELSE 0,
                        partial |-> IF Has(Ev, "partial") THEN Ev.partial ELSE 0,
@@ -107,9 +107,13 @@ TrFromRng(e) ==
          r == FromRngD(SeedClass(k), AlgSeedLen(k), FromRngLen(k), srcs[Ev.s])
      IN /\ Expect("ok", r.ok, Ev.ok)
         /\ Expect("source position after", r.src.pos, Ev.src_pos)
-        /\ Expect("bytes delivered by the source", LogDelivered(r.log), LogDelivered(Ev.src_log))
-        /\ Expect("source failed during the call", ~r.ok, ImplLogFailed(Ev.src_log))
-        /\ Expect("only fill_bytes is used", TRUE, ImplLogFillOnly(Ev.src_log))
+        \* the calls made on the source: the list, or (beyond 4096 calls) the harness's summary of it
+        /\ Expect("bytes delivered by the source", LogDelivered(r.log),
+                  IF Has(Ev, "src_log") THEN LogDelivered(Ev.src_log) ELSE Ev.src_delivered)
+        /\ Expect("source failed during the call", ~r.ok,
+                  IF Has(Ev, "src_log") THEN ImplLogFailed(Ev.src_log) ELSE Ev.src_failed)
+        /\ Expect("only fill_bytes is used", TRUE,
+                  IF Has(Ev, "src_log") THEN ImplLogFillOnly(Ev.src_log) ELSE Ev.src_fill_only)
         /\ srcs' = [srcs EXCEPT ![Ev.s] = [r.src EXCEPT !.calls = Ev.src_calls]]
         /\ IF r.ok
            THEN LET s == ResolveD(k, r.gen) IN
